@@ -8,7 +8,7 @@ import os
 import tempfile
 import warnings
 
-EXC_KINDS = ['forbidden', 'notfound', 'pme', 'valueerror', 'boom']       # CExc index
+EXC_KINDS = ['forbidden', 'notfound', 'pme', 'valueerror', 'boom', 'csrf']       # CExc index
 RES_PATHS = [[], ['a'], ['a', 'b']]                                      # CRes index
 CTX_NAMES = [None, 'Root', 'A', 'B', 'I']
 EXC_CTX_NAMES = ['Boom', 'Exception', 'HTTPForbidden', 'HTTPNotFound', 'ValueError']
@@ -35,7 +35,8 @@ def setup():
     from pyramid.interfaces import IRequest, IRouteRequest, IExceptionResponse
     from pyramid.response import Response, FileResponse
     from pyramid.request import Request
-    from pyramid.exceptions import PredicateMismatch
+    from pyramid.exceptions import PredicateMismatch, BadCSRFToken, BadCSRFOrigin
+    from pyramid.csrf import CookieCSRFStoragePolicy
     from pyramid.httpexceptions import HTTPForbidden, HTTPNotFound, HTTPException, WSGIHTTPException
     from pyramid.security import NO_PERMISSION_REQUIRED, Allowed, Denied
     from pyramid.tweens import EXCVIEW
@@ -136,6 +137,8 @@ def ctx_id(obj):
     for i, r in enumerate(P['resources']):
         if obj is r:
             return [0, i]
+    if isinstance(obj, (P['BadCSRFToken'], P['BadCSRFOrigin'])):
+        return [1, 5]
     if isinstance(obj, P['HTTPForbidden']):
         return [1, 0]
     if isinstance(obj, P['PredicateMismatch']):
@@ -317,6 +320,7 @@ class World:
                 ctor['default_permission'] = P['perm_obj'][s['perm']]
         cfg = P['Configurator'](root_factory=lambda request: P['root'], **ctor)
         cfg.add_tween('harness.c05.world.raise_logger', under=P['EXCVIEW'])
+        cfg.set_csrf_storage_policy(P['CookieCSRFStoragePolicy']())      # require_csrf=True views need no session
         self.cfg = cfg
         self.iid(P['Interface'])
         self.iid(P['IRequest'])
@@ -385,6 +389,8 @@ class World:
                 kw['context'] = P['classes'][s['ctx']]
             if s.get('exc_only'):
                 kw['exception_only'] = True
+            if s.get('csrf'):
+                kw['require_csrf'] = True
             cfg.add_view(view, name=s['name'], **kw)
         elif k == 'notfound':
             cfg.add_notfound_view(view, append_slash=bool(s.get('append_slash')), **kw)
@@ -410,6 +416,9 @@ class World:
         rq.method = r['method']
         if r['xhr']:
             rq.headers['X-Requested-With'] = 'XMLHttpRequest'
+        if r.get('csrf'):
+            rq.headers['Cookie'] = 'csrf_token=tok'
+            rq.headers['X-CSRF-Token'] = 'tok'
         env = rq.environ
         env['c05.log'], env['c05.truth'], env['c05.world'] = log, list(r['truth']), self
         got = {}
@@ -425,6 +434,32 @@ class World:
                 out = ['ret', self.static_tag]
             else:
                 out = ['ret', BUILTIN_TAG, got['status'][:3]]
+        except Exception as e:
+            out = ['exc', exc_kind(e)]
+        return [log, out]
+
+    def run_render(self, r):
+        """pyramid.view.render_view_to_response(context, request, name, secure) called directly (no router)"""
+        P = _P
+        from pyramid.view import render_view_to_response
+        log = []
+        rq = P['Request'].blank('/')
+        rq.method = r['method']
+        if r['xhr']:
+            rq.headers['X-Requested-With'] = 'XMLHttpRequest'
+        if r.get('csrf'):
+            rq.headers['Cookie'] = 'csrf_token=tok'
+            rq.headers['X-CSRF-Token'] = 'tok'
+        rq.environ['c05.log'], rq.environ['c05.truth'], rq.environ['c05.world'] = log, list(r['truth']), self
+        rq.registry = self.cfg.registry
+        context = P['resources'][r['res']]
+        rq.context = context
+        try:
+            resp = render_view_to_response(context, rq, r['vname'], secure=bool(r['secure']))
+            if resp is None:
+                out = ['none']
+            else:
+                out = ['ret', int(resp.headers['X-Tag'][1:])]
         except Exception as e:
             out = ['exc', exc_kind(e)]
         return [log, out]
@@ -446,7 +481,7 @@ class World:
             riface = P['IRequest']
         context = P['resources'][res]
         excs = {'forbidden': P['HTTPForbidden'](), 'notfound': P['HTTPNotFound'](), 'pme': P['PredicateMismatch'](''),
-                'valueerror': ValueError(), 'boom': P['Boom']()}
+                'valueerror': ValueError(), 'boom': P['Boom'](), 'csrf': P['BadCSRFToken']()}
         return {'req_sro': [self.iid(i) for i in riface.__sro__],
                 'comb_sro': [self.iid(i) for i in riface.combined.__sro__],
                 'wrap_sro': list(self.wrap_sro),
